@@ -757,6 +757,23 @@ class Lib:
             if isinstance(c, A.SeqVal):
                 n, fn = c.length, c.fn
                 v = args[0]
+                if isinstance(v, A.Arr):
+                    # array element appended to a symbolic-length list: at a symbolic position the element is the
+                    # index-wise merge ite(i == n, v, previous element i)
+                    vr, vshape, vdt = v.reader(), tuple(v.shape), v.dtype
+
+                    def elem(i, n=n, fn=fn, v=v, vr=vr, vshape=vshape, vdt=vdt):
+                        c = sv.cmp("==", i, n)
+                        if is_conc(c):
+                            return v if c else fn(i)
+                        old = fn(i)
+                        if not isinstance(old, A.Arr) or len(old.shape) != len(vshape):
+                            raise EngineError("list of arrays of different rank")
+                        orr = old.reader()
+                        shape = tuple(a if A.dim_eq_syntactic(a, b) else ite(c, a, b) for a, b in zip(vshape, old.shape))
+                        return A.new_arr(shape, lambda idx: ite(c, lambda: vr(idx), lambda: orr(idx)), vdt)
+                    ref.set_content(A.SeqVal(A.simp(sv.add(n, 1)), elem))
+                    return None
                 ref.set_content(A.SeqVal(A.simp(sv.add(n, 1)), lambda i, n=n, fn=fn, v=v: ite(sv.cmp("==", i, n), v, lambda: fn(i)) if sv.is_scalar(v) else (v if is_conc(i) and is_conc(n) and i == n else fn(i))))
                 return None
             ref.set_content(tuple(c) + (args[0],))
